@@ -236,11 +236,16 @@ def run(ctx):
     # 4 schedule replay of the real headers against the extracted LTS
     from .. import c15replay
     c15replay.run(ctx)
+    # 5 the derived dispatcher destroyed in C++ order against the lifetime LTS
+    c15replay.run_lifetime(ctx)
 
 
 def replay(ctx, data):
     """True iff the property holds for this probe configuration (or schedule) on the current headers."""
     if "args" not in data:
+        if data.get("lifetime"):
+            from .. import c15replay
+            return c15replay.replay_lifetime(ctx, data)
         if data.get("explore"):
             from .. import c15search
             return c15search.replay(ctx, data)
